@@ -375,3 +375,63 @@ def _dechunk(buf: bytearray):
             return None
         body += buf[pos : pos + n]
         pos += n + 2
+
+
+class H2Peer:
+    """Server side of an HTTP/2 connection (real `h2` state machine with inbound
+    validation off, so that whatever the client managed to encode is observed)."""
+
+    def __init__(self, world, chan, name: str = "h2origin") -> None:
+        import h2.config
+        import h2.connection
+
+        self.world = world
+        self.chan = chan
+        self.name = name
+        cfg = h2.config.H2Configuration(client_side=False, validate_inbound_headers=False, normalize_inbound_headers=False, header_encoding=None)
+        self.conn = h2.connection.H2Connection(config=cfg)
+        self.conn.initiate_connection()
+        self.started = False
+        self.requests: list = []  # (stream id, [(name, value)], body)
+        self.bodies: dict = {}
+        self.errors: list = []
+
+    def on_data(self, data: bytes) -> None:
+        import h2.events
+        import h2.exceptions
+
+        if not self.started:
+            self.started = True
+            self.chan.peer_push(self.conn.data_to_send())
+        try:
+            events = self.conn.receive_data(data)
+        except h2.exceptions.ProtocolError as e:
+            self.errors.append(repr(e))
+            self.world.log("h2_protocol_error", None, repr(e)[:80])
+            out = self.conn.data_to_send()
+            if out:
+                self.chan.peer_push(out)
+            self.chan.peer_eof()
+            return
+        for ev in events:
+            if isinstance(ev, h2.events.RequestReceived):
+                self.requests.append([ev.stream_id, [(bytes(k), bytes(v)) for k, v in ev.headers], b""])
+                self.world.log("h2_request", None, (self.name, ev.stream_id, len(ev.headers)))
+            elif isinstance(ev, h2.events.DataReceived):
+                for r in self.requests:
+                    if r[0] == ev.stream_id:
+                        r[2] += ev.data
+                self.conn.acknowledge_received_data(ev.flow_controlled_length, ev.stream_id)
+            elif isinstance(ev, h2.events.StreamEnded):
+                meth = next((r[1] for r in self.requests if r[0] == ev.stream_id), [])
+                if (b":method", b"HEAD") in meth:
+                    self.conn.send_headers(ev.stream_id, [(b":status", b"200")], end_stream=True)
+                else:
+                    self.conn.send_headers(ev.stream_id, [(b":status", b"200"), (b"content-length", b"2")])
+                    self.conn.send_data(ev.stream_id, b"ok", end_stream=True)
+        out = self.conn.data_to_send()
+        if out:
+            self.chan.peer_push(out)
+
+    def on_client_close(self) -> None:
+        pass
